@@ -128,15 +128,28 @@ def translator_run():
     # exchange iff the second copy is left unread.  The translator is then run again with these observations (never overriding
     # a shape it did recognise); Tables.probed names the sequences concerned.
     names = [l.split(": ")[1] for l in out.splitlines() if l.startswith("unrecognised: ") and "into_stream has an unrecognised shape" in l]
+    lines = []
     if names:
         try:
-            lines = probe_sequences(names)
+            lines += probe_sequences(names)
         except (MachineryError, HangFound):
-            lines = []               # no observation: the shape stays `unrecognised` and is reported as such
-        if lines:
-            write_lines(probe, lines)
-            env = dict(ENV, ZVT2COQ_PROBE=probe)
-            rc, out = sh([tr, REPO, VERIF], timeout=300, env=env)
+            pass                     # no observation: the shape stays `unrecognised` and is reported as such
+    # likewise the texts of the result codes: where the source does not show them in a form the recogniser knows (a lookup
+    # table, say), they are read off the running code (Display of every ErrorMessages::from_u8(c))
+    if any(l.startswith("unrecognised: ErrorMessages::") for l in out.splitlines()):
+        try:
+            codec = harness_build("harness", ["codec"])["codec"]
+            wd = os.path.join(CACHE, "run", "probe")
+            os.makedirs(wd, exist_ok=True)
+            o = run_sharded(codec, ["errtab"], wd, "errtab", shards=1)
+            if o and o[0]:
+                lines.append("errtab\t" + o[0])
+        except (MachineryError, HangFound):
+            pass
+    if lines:
+        write_lines(probe, lines)
+        env = dict(ENV, ZVT2COQ_PROBE=probe)
+        rc, out = sh([tr, REPO, VERIF], timeout=300, env=env)
     return rc == 0, out
 
 
